@@ -4,6 +4,7 @@
 # independent reference encoder, arbitrary and mutated byte strings
 set -e
 R="${VERIF_REPO:-/repo}"
+[ "${VERIF_TIER:-quick}" = thorough ] && export VERIF_CASES="${VERIF_CASES:-400000}"
 T=$(mktemp -d /tmp/bnd.XXXXXX)
 echo "{\"Replace\": {\"$R/data/esdt/zz_bounded_codec_test.go\": \"/verif/replay/codec_bounded_test.go.txt\"}}" > $T/ov.json
 cd "$R" && GOFLAGS=-mod=mod GOPROXY=off GOSUMDB=off GOTOOLCHAIN=local go test -v -overlay $T/ov.json -vet=off -count=1 -timeout 600s -run TestBoundedCodec ./data/esdt/ 2>&1 | grep -v "^=== RUN" | tail -8
